@@ -908,9 +908,12 @@ func getSourceFromFile(file string, reader *sourceReader, fns graph.Nodes, start
 			nodeStart = lineno - margin
 		}
 		nodeEnd := lineno + margin
+		// A node can extend the range at both ends (a function that
+		// starts before and is sampled after the ones seen so far).
 		if nodeStart < start {
 			start = nodeStart
-		} else if nodeEnd > end {
+		}
+		if nodeEnd > end {
 			end = nodeEnd
 		}
 		lineNodes[lineno] = append(lineNodes[lineno], n)
